@@ -15,6 +15,7 @@ package main
 //	S  Shutdown is called and runs until it is closing the listener
 //	k  the listener close is let through: Shutdown goes on to wait
 //	x  the context ends
+//	V  Serve is called (schedules without V start with Serve already running; with V, what precedes it happens before)
 
 import (
 	"context"
@@ -48,6 +49,10 @@ type shutdownRun struct {
 	mu           sync.Mutex
 	hgate        [2]*gate // the operation handler of session i waits here
 }
+
+// settleFactor stretches the polling that decides "everything that can run has run": the confirmation pass of a
+// disagreeing schedule uses a larger one, so that a loaded machine cannot produce a false alarm
+var settleFactor = 1
 
 func wait(d time.Duration, pred func() bool) bool {
 	deadline := time.Now().Add(d)
@@ -146,14 +151,24 @@ func runShutdownSeq(seq string) (obs string, problems []string) {
 	r.lis.closeGate = newGate("listener-close")
 	r.ctx, r.cancel = context.WithCancel(context.Background())
 	defer r.cancel()
-	init := make(chan struct{})
-	go func() { r.served <- r.srv.Serve(r.lis, init) }()
-	<-init
+	serving := false
+	startServe := func() {
+		if serving {
+			return
+		}
+		serving = true
+		init := make(chan struct{})
+		go func() { r.served <- r.srv.Serve(r.lis, init) }()
+		<-init
+	}
+	if !strings.Contains(seq, "V") {
+		startServe()
+	}
 	settle := func() {
 		// let everything that can run on its own run: bounded, polling for stability
 		stable := 0
 		last := ""
-		for i := 0; i < 400 && stable < 6; i++ {
+		for i := 0; i < 400*settleFactor && stable < 6*settleFactor; i++ {
 			time.Sleep(300 * time.Microsecond)
 			r.poll()
 			cur := r.serveRes + "|" + r.shRes
@@ -220,10 +235,16 @@ func runShutdownSeq(seq string) (obs string, problems []string) {
 			if i < len(r.conns) {
 				r.conns[i].closeGate.release()
 			}
+		case 'V':
+			startServe()
 		case 'S':
 			r.shStarted = true
 			go func() { r.shDone <- r.srv.Shutdown(r.ctx) }()
-			r.lis.closeGate.waitArrived(2 * time.Second)
+			if serving {
+				r.lis.closeGate.waitArrived(2 * time.Second)
+			} else {
+				r.lis.closeGate.release() // Serve has not stored the listener: Shutdown has nothing to close
+			}
 		case 'k':
 			r.lis.closeGate.release()
 		case 'x':
@@ -274,6 +295,9 @@ func runShutdownSeq(seq string) (obs string, problems []string) {
 		c.closeGate.release()
 	}
 	r.cancel()
+	if !serving {
+		r.serveRes = "notstarted"
+	}
 	if !r.shStarted {
 		ctx, cancel := contextWithTimeout(time.Second)
 		r.srv.Shutdown(ctx)
@@ -306,6 +330,8 @@ func genShutdownSeqs(maxLen int) []string {
 		closed                    [2]bool
 		asked, inflight           [2]bool
 		sh, k, x                  bool
+		notServing                bool // Serve has not been called yet (schedules with V)
+		shBeforeServe             bool // Shutdown ran before Serve stored its listener: the listener is still open
 		acceptorBusy              bool // holds a connection at the gate
 		serveReturned             bool
 	}
@@ -315,6 +341,26 @@ func genShutdownSeqs(maxLen int) []string {
 			out = append(out, prefix)
 		}
 		if len(prefix) >= maxLen {
+			return
+		}
+		if s.notServing {
+			// before Serve: Shutdown (which completes at once), the context, and the start of Serve
+			if !s.sh {
+				n := s
+				n.sh, n.k, n.shBeforeServe = true, true, true
+				rec(prefix+"S", n)
+			}
+			if !s.x {
+				n := s
+				n.x = true
+				rec(prefix+"x", n)
+			}
+			n := s
+			n.notServing = false
+			if n.shBeforeServe {
+				n.serveReturned = true // Serve finds Shutdown signalled: closes the listener, returns nil
+			}
+			rec(prefix+"V", n)
 			return
 		}
 		if s.conns < 2 && !s.sh {
@@ -381,6 +427,7 @@ func genShutdownSeqs(maxLen int) []string {
 		}
 	}
 	rec("", state{})
+	rec("", state{notServing: true})
 	return out
 }
 
@@ -389,18 +436,28 @@ func suiteShutdown(args []string) {
 	seed := fs.Int64("seed", 1, "")
 	maxLen := fs.Int("len", 5, "")
 	dir := fs.String("dir", "work/shutdown", "")
+	only := fs.String("only", "", "comma separated schedules to run (confirmation pass)")
+	slow := fs.Int("slow", 1, "settle factor")
 	fs.Parse(args)
+	settleFactor = *slow
 	cw := newCaseWriter(*dir)
 	rep := &Report{Suite: "shutdown", Seed: *seed, Distribution: map[string]int{}}
 	rep.Rule = "every well-formed schedule over {c connect, r release accepted connection, 0/1 peer of a session goes away, a/b the session's conn.Close is let through, q/w a request arrives on a session and its handler blocks, h/j that handler is released, S Shutdown up to the listener close, k let the close through, x context ends} up to the length bound, 1-2 connections; all distinct; non-trivial = contains S and at least one connection"
 	seqs := genShutdownSeqs(*maxLen)
+	if *only != "" {
+		seqs = strings.Split(*only, ",")
+	}
 	type res struct {
 		obs      string
 		problems []string
 	}
 	results := make([]res, len(seqs))
 	var wg sync.WaitGroup
-	sem := make(chan struct{}, 12)
+	par := 12
+	if *slow > 1 {
+		par = 2
+	}
+	sem := make(chan struct{}, par)
 	for i, sq := range seqs {
 		wg.Add(1)
 		sem <- struct{}{}
